@@ -23,23 +23,24 @@ type WrkEnv struct {
 
 // AnyWrkParams: any parameter set accepted by Params.Validate (denomination fixed to nund here;
 // denominations are the subject of C16).
-func AnyWrkParams() wrktypes.Params {
+func AnyWrkParams(tag string) wrktypes.Params {
 	return wrktypes.Params{
-		FeeRegister:         rt.U64("p.feeRegister"),
-		FeeRecord:           rt.U64("p.feeRecord"),
-		FeePurchaseStorage:  rt.U64("p.feePurchase"),
+		FeeRegister:         rt.U64(tag + ".feeRegister"),
+		FeeRecord:           rt.U64(tag + ".feeRecord"),
+		FeePurchaseStorage:  rt.U64(tag + ".feePurchase"),
 		Denom:               "nund",
-		DefaultStorageLimit: rt.U64("p.defaultLimit"),
-		MaxStorageLimit:     rt.U64("p.maxLimit"),
+		DefaultStorageLimit: rt.U64(tag + ".defaultLimit"),
+		MaxStorageLimit:     rt.U64(tag + ".maxLimit"),
 	}
 }
 
-func NewWrkEnv(now time.Time) *WrkEnv {
-	e := NewEnv(now, false)
+func NewWrkEnv(now time.Time) *WrkEnv { return NewWrkEnvOn(NewEnv(now, false), "p") }
+
+func NewWrkEnvOn(e *Env, tag string) *WrkEnv {
 	key := storetypes.NewKVStoreKey(wrktypes.StoreKey)
 	k := wrkkeeper.NewKeeper(key, rt.Codec(), Authority())
 	we := &WrkEnv{Env: e, K: k, Key: key}
-	we.Params = AnyWrkParams()
+	we.Params = AnyWrkParams(tag)
 	rt.Assume(we.Params.Validate() == nil)
 	_ = k.SetParams(e.Ctx, we.Params)
 	return we
